@@ -149,10 +149,8 @@ class Run:
             elif path == 'bytes':
                 obj = cls.from_string(ent['data'])
             else:
-                text = ent['text']
-                if text is None:
-                    text = ent['data'].decode('utf-8', 'replace')
-                obj = cls.from_string(text)
+                # a corrupted object has no text form: it is handed over as the stored bytes
+                obj = cls.from_string(ent['text'] if ent['text'] is not None else ent['data'])
             return obj, None, False
         except Exception as e:     # noqa
             fired = sum(self.fs.fired.values()) + sum(self.s3.fired.values()) > fired_before
@@ -165,7 +163,8 @@ class Run:
         from xml.etree import ElementTree
         try:
             root = ElementTree.fromstring(ent['data'])
-        except ElementTree.ParseError:
+        except (ElementTree.ParseError, LookupError, ValueError):
+            # not well-formed, or in an encoding the parser cannot decode
             return ('invalid',)
         tags = [c.tag for c in root]
         for tag in O.MESSAGE_TAGS:
@@ -192,7 +191,8 @@ class Run:
         exp = self.expected_classification(ent)
         self.cov.add(('classify', exp[0], exp[1] if len(exp) > 1 else '', type(exc).__name__ if exc else 'ok'))
         if exc is not None and not isinstance(exc, MX.MosRoMgrException):
-            add('C12.exc', 'classifying a document escaped as %s: %s' % (type(exc).__name__, exc))
+            if exp[0] != 'invalid':     # C12 speaks of well-formed documents; malformed ones belong to C08
+                add('C12.exc', 'classifying a document escaped as %s: %s' % (type(exc).__name__, exc))
             add('C08.class', 'classification (%s) raised %s instead of %s' % (label, type(exc).__name__, exp))
             return
         if n_msg > 1:
@@ -217,7 +217,7 @@ class Run:
             try:
                 root = ElementTree.fromstring(ent['data'])
                 c = Counter(x.tag for x in root)
-            except ElementTree.ParseError:
+            except (ElementTree.ParseError, LookupError, ValueError):
                 c = Counter()
             ent['_tags'] = c
         return c[tag]
@@ -292,15 +292,17 @@ class Run:
         self.orig_mid = op['mid']
         self.orig_roid = op.get('ro_id', 'RO1')
         mk = lambda: MT.RunningOrder.from_string(text)
-        self.Nn = mk()
-        self.T = mk()
-        if self.cfg.get('double'):
+        self.twin = self.cfg.get('twin', False)
+        if self.twin:
+            self.Nn = mk()
+            self.T = mk()
+        if self.twin and self.cfg.get('double'):
             self.D, self.DC = mk(), mk()
         self.T_queue = []
         self.N_hist = []
         self.completed = False
         self.sP_last = str(self.P)
-        self.sT_last = str(self.T)
+        self.sT_last = str(self.T) if self.twin else None
         self.restarts_since = 0
         self.state_checks(op)
         self.event(self.step_i, 'create', digest(canon_et(self.P.xml)))
@@ -368,15 +370,14 @@ class Run:
         self.msgs.append((obj, snap, op, self.step_i))
         if ck.get('message', True) and ck.get('message_after', True):
             check_message(obj, op, self.adder(op, {'when': 'after-merge'}), 'after merge: ')
-        # -- N: never restarted, always fresh objects (C14 restart equivalence, C18)
+        if not self.twin:
+            self.state_checks(op)
+            self.event(self.step_i, 'msg', op['type'], path, outcome, tuple(out['warnings']), digest(B))
+            return
+        # -- N: always fresh objects, never shared with anything (reference for the twin, C13)
         fresh = MT.MosFile.from_string(text if text is not None else data)
         self.Nn, outN, _, sN = self.merge(self.Nn, fresh)
         self.N_hist.append((outN['exc'], sN, tuple(outN['warnings'])))
-        if sN != sB or outN['exc'] != out['exc'] or outN['warnings'] != out['warnings']:
-            which = 'C14.restart-equiv' if self.restarts_since else 'C18.source'
-            self.add(which, 'running order %s differs from the one that %s' % (
-                'continued from durable state' if self.restarts_since else 'got the message via ' + path,
-                'never restarted' if self.restarts_since else 'got it from a string'), op, {'path': path})
         # -- D / DC: the same object merged twice vs two fresh copies (C13)
         if self.D is not None and step.get('double'):
             r = []
@@ -396,16 +397,16 @@ class Run:
         # -- T: the twin receives the same object, possibly later
         lag = step.get('twin_lag')
         j = len(self.N_hist) - 1
-        self.T_queue.append((self.step_i + (lag or 0), obj, snap, j, op))
+        self.T_queue.append((self.step_i + (lag or 0), obj, snap, j, op, self.step_i))
         self.drain_twin(self.step_i)
         self.state_checks(op)
         self.event(self.step_i, 'msg', op['type'], path, outcome, tuple(out['warnings']), digest(B))
 
     def drain_twin(self, now):
         while self.T_queue and self.T_queue[0][0] <= now:
-            _due, obj, snap, j, op = self.T_queue.pop(0)
+            _due, obj, snap, j, op, mstep = self.T_queue.pop(0)
             if str(self.T) != self.sT_last:
-                self.add('C13.shared', 'the twin changed although only the other running order was edited', op)
+                self.add('C13.shared', 'the twin changed although only the other running order was edited', op, {'msg_step': mstep})
             if str(obj) != snap:
                 self.add('C13.msg-mutated', 'message object changed after it was merged', op, {'mode': 'later-edit'})
             self.T, o, _, s = self.merge(self.T, obj)
@@ -494,7 +495,8 @@ class Run:
                     break
             self.step_i = len(self.tr['steps'])
             if self.P is not None:
-                self.drain_twin(10 ** 9)
+                if self.twin:
+                    self.drain_twin(10 ** 9)
                 for obj, snap, op, st in self.msgs:
                     if str(obj) != snap:
                         self.add('C13.msg-mutated', 'message object merged at step %d changed afterwards' % st, op, {'mode': 'end-of-run'})
